@@ -194,6 +194,14 @@ DIRECTIVES = [
 ]
 
 
+# 'using MAJOR.MINOR[.PATCH]': every component position x number classes around the widths an implementation may convert with
+# (3 digits, int, unsigned, 64 bit)
+for _v in ("0", "9", "99", "999", "1000", "99999", "999999999", "1000000000", "2147483647", "2147483648", "4294967295", "4294967296",
+           "9999999999", "10000000000", "9223372036854775807", "9223372036854775808", "18446744073709551616", "00000000000000000001"):
+    DIRECTIVES += [("using-major-" + _v, "using %s.0" % _v, False), ("using-minor-" + _v, "using 0.%s" % _v, False),
+                   ("using-patch-" + _v, "using 0.78.%s" % _v, False)]
+
+
 def directive_job(j):
     name, line, want_diag = j
     d = run.fresh_dir()
@@ -313,6 +321,32 @@ def nlmax_job(j):
         shutil.rmtree(d, True)
 
 
+def setlen_job(j):
+    """--set NAME=VALUE (and --tracking KIND:FILE) with an argument of exactly L characters: a setting given on the command line is
+    configuration text like any other - accepted, or refused with a diagnostic, never a crash"""
+    kind, L = j
+    d = run.fresh_dir()
+    try:
+        if kind == "set-number":
+            arg = "indent_columns=" + "4".rjust(L - len("indent_columns="), "0")
+            argv = [build.binary("asan"), "-c", "-", "--set", arg, "-l", "C"]
+        elif kind == "set-unknown":
+            arg = ("x" * (L - 2)) + "=1"
+            argv = [build.binary("asan"), "-c", "-", "--set", arg, "-l", "C"]
+        else:
+            arg = "space:" + "t" * (L - len("space:"))
+            argv = [build.binary("asan"), "-c", "-", "--tracking", arg, "-l", "C"]
+        r = run.run_argv(argv, stdin=b"int x;\n", env=ENV, cwd=d)
+        v = []
+        c = crashy(r)
+        if c:
+            v.append(({"clause": "crash-or-hang", "what": c.split()[0], "directive": kind, "length_class": "256" if L == 256 else ("<256" if L < 256 else ">256")},
+                      {"config.cfg": "", "stderr": r.err[-2000:], "argv": repr(argv)}))
+        return {"id": "%s/%d" % (kind, L), "runs": 1, "viol": v, "nontrivial": int(r.rc != 0)}
+    finally:
+        shutil.rmtree(d, True)
+
+
 def check(ctx):
     quick = ctx.tier == "quick"
     R = bee.reg()
@@ -352,7 +386,8 @@ def check(ctx):
             take(res)
         nopt = agg["runs"]
         incj = [(how, n, pre) for how in ("relative", "absolute") for n in (1, 2, 7, 20) for pre in (0, 3)]
-        for fn, jobs in ((directive_job, DIRECTIVES), (cycle_job, cyc), (include_line_job, incj), (nlmax_job, nlj), (text_job, texts)):
+        slj = [(k, L) for k in ("set-number", "set-unknown", "tracking") for L in (list(range(250, 262)) + [511, 512, 513, 1024, 4096, 70000] if quick else range(20, 1100))]
+        for fn, jobs in ((directive_job, DIRECTIVES), (cycle_job, cyc), (include_line_job, incj), (setlen_job, slj), (nlmax_job, nlj), (text_job, texts)):
             for res in pool.imap(fn, jobs, chunksize=16, deadline=ctx.deadline):
                 take(res)
         if pool.cut:
@@ -362,7 +397,7 @@ def check(ctx):
         "states": len(names) + len(texts) + len(DIRECTIVES) + len(cyc) + len(nlj), "transitions": agg["runs"],
         "traces_validated_against_impl": agg["runs"],
         "rule": "every option of the registry (%d) x every bad-line class of its type (%d (option, class) pairs; runs in the option universe: %d) + "
-                "%d directive lines + %d include graphs + %d nl_max cases (%d blank-line count options x nl_max 1..3 x {equal, one more} x "
+                "%d directive lines + %d include graphs + --set / --tracking arguments of every length around the 256-byte buffer + %d nl_max cases (%d blank-line count options x nl_max 1..3 x {equal, one more} x "
                 "{file, file reversed, --set}) + %d whole-file texts (byte strings, word sequences); non-trivial = the run produced the "
                 "expected diagnostic / refusal (an error path was executed)" % (len(names), agg["classes"], nopt, len(DIRECTIVES), len(cyc), len(nlj), len(cnt), len(texts)),
         "samples": [{"option": "indent_columns", "line2": "indent_columns = 17", "class": "above-max"}, {"text": repr(texts[700][1])},
